@@ -17,6 +17,7 @@ use serde_json;
 
 use crate::build::Val;
 use crate::convert::traits::{ConvertResult, Converter, ImportResult, Importer};
+use crate::error::{BuildError, ErrorType};
 
 /// JsonConverter implements the logic for converting a Val into the json output format.
 pub struct JsonConverter {}
@@ -105,6 +106,14 @@ impl JsonConverter {
             serde_json::Value::Number(n) => {
                 if let Some(i) = n.as_i64() {
                     Val::Int(i)
+                } else if n.is_u64() {
+                    // An integer above i64::MAX. Turning it into a float would silently
+                    // change its value so we refuse it instead.
+                    return Err(BuildError::new(
+                        format!("Integer {} does not fit in a 64 bit signed integer", n),
+                        ErrorType::IncludeError,
+                    )
+                    .to_boxed());
                 } else {
                     Val::Float(n.as_f64().expect("Number was not an int or a float!!"))
                 }
